@@ -100,6 +100,15 @@ func (w *lgWriter) Write(b []byte) (int, error) {
 	return w.recWriter.Write(b)
 }
 
+// Flush: as net/http, a flush before anything was written commits the implicit 200 header
+func (w *lgWriter) Flush() {
+	if !w.recWriter.wrote {
+		w.recWriter.wrote = true
+		w.recWriter.code = 200
+	}
+	*w.trace = append(*w.trace, "f")
+}
+
 func lgBehaviour(c fox.Context) {
 	beh, _ := c.Request().Context().Value(lgBehKey{}).(string)
 	if beh == "-" || beh == "" || beh == "d" {
@@ -109,6 +118,8 @@ func lgBehaviour(c fox.Context) {
 		switch {
 		case op == "b":
 			_, _ = c.Writer().Write([]byte("x"))
+		case op == "f":
+			_ = c.Writer().FlushError()
 		case op == "p":
 			panic("boom-" + beh)
 		case strings.HasPrefix(op, "h"):
@@ -310,7 +321,12 @@ func lgStatus(r *Rng) int {
 func lgGenBeh(r *Rng) string {
 	h := func() string { return "h" + itoa(lgStatus(r)) }
 	loc := func() string { return "L" + hx(Pick(r, lgLocations)) }
-	switch r.Intn(16) {
+	switch r.Intn(18) {
+	case 16:
+		// flush first (streaming handlers commit the header this way), then another status / a redirect attempt
+		return "f+" + Pick(r, []string{h(), loc() + "+" + h(), "b+" + h(), "b"})
+	case 17:
+		return Pick(r, []string{h() + "+f+" + h(), "h103+f+" + h(), "f+f+b"})
 	case 0, 1, 2:
 		return h()
 	case 3:
